@@ -1089,7 +1089,18 @@ class SymStr:
   def count(self, x): return self._r().count(self._b(x))
   def startswith(self, x, *a): return self._r().startswith(self._b(x), *a)
   def endswith(self, x): return self._r().endswith(self._b(x))
+  _WS = (9, 10, 11, 12, 13, 28, 29, 30, 31, 32, 0x85, 0xa0)       # str.isspace() within latin-1
+  def _ws_split(self):
+    parts = []; cur = []
+    for c in self._r().b:
+      ws = (c in self._WS) if isinstance(c, int) else bool(Or(*[c == w for w in self._WS]))
+      if ws:
+        if cur: parts.append(cur); cur = []
+      else: cur.append(c)
+    if cur: parts.append(cur)
+    return [self._w(SymBytes(p)) for p in parts]
   def split(self, sep=None, maxsplit=-1):
+    if sep is None and maxsplit == -1: return self._ws_split()
     if sep is None: raise Inconclusive("whitespace split of symbolic text")
     return [self._w(p) for p in self._r().split(self._b(sep), maxsplit)]
   def rsplit(self, sep=None, maxsplit=-1):
